@@ -354,7 +354,7 @@ fn corner_tree(rng: &mut Rng) -> GTree {
     let ns = |p: usize, n: usize| GTree::leaf(GValue::Namespace(p, n));
     let at = |n: usize, v: &str| GTree::leaf(GValue::Attribute(n, v.into()));
     let tx = |t: &str| GTree::leaf(GValue::Text(t.into()));
-    match rng.below(7) {
+    match rng.below(9) {
         // prefix on the ancestor, used by descendants
         0 => e(2, vec![ns(2, NS_A), e(6, vec![e(7, vec![e(8, vec![])])])]),
         // prefixed attribute whose namespace is also the default namespace declared on the source
@@ -367,6 +367,11 @@ fn corner_tree(rng: &mut Rng) -> GTree {
         4 => e(2, vec![ns(2, NS_B), e(3, vec![at(0, "preserve"), at(15, "en"), e(9, vec![tx(" ")])])]),
         // two prefixes for one namespace on different ancestors
         5 => e(2, vec![ns(2, NS_A), e(3, vec![ns(3, NS_A), ns(4, NS_C), e(6, vec![at(12, "v"), at(7, "w")])])]),
+        // default namespace and a prefix for it above; the source undeclares the default (a32c6f4:
+        // an element in no namespace is refused where a default namespace is in scope)
+        6 => e(6, vec![ns(0, NS_A), ns(2, NS_A), e(2, vec![ns(0, 0), e(7, vec![at(6, "v")]), e(3, vec![])])]),
+        // default namespace above, the source is in it and contains an undeclared island
+        7 => e(6, vec![ns(0, NS_A), e(7, vec![e(2, vec![ns(0, 0), e(3, vec![tx("x")])]), e(8, vec![])])]),
         // descendant redeclares
         _ => e(2, vec![ns(2, NS_A), ns(3, NS_B), e(4, vec![e(6, vec![ns(2, NS_A)]), e(9, vec![at(10, "v")])])]),
     }
